@@ -21,6 +21,9 @@ func init() {
 			"(R6) the stash is assigned only by Stash and Unstash (or by a function that first hands every element on): nothing else can drop or reorder stashed messages. (R7) whatever the context installs as its current envelope is the received envelope or a fresh allocation, never reused storage, so an envelope kept by Stash is not overwritten later; (R4, addition) the array is released only under restored count == length taken before the prefix was cut (or remaining length == 0). NOT decided: order preservation of the ring's index arithmetic across growth (needs arithmetic reasoning over head/tail/mod), FIFO under concurrent senders (follows from R1 + mutual exclusion, not proved).",
 		Assumptions: []string{"a lock is identified by its struct field (instance-insensitive)", "sync.Mutex gives mutual exclusion"},
 		Rules: []Rule{
+			{ID: "C02.R8", Min: 1, Desc: "a remote sender's messages keep their queue: the receiving node enqueues with the system flag that travelled in the envelope (the hand-over check of C11.R5)", Fn: func(p *Program, r *Report) {
+				r.only(c11Roles, func(c string) bool { return strings.Contains(c, "handler rebuilds") })
+			}},
 			{ID: "C02.R1", Min: 20, Desc: "ring storage and indices only under the queue lock; length atomic+locked", Fn: c02Ring},
 			{ID: "C02.R2", Min: 1, Desc: "system queue observed empty before every user pop", Fn: c02SystemFirst},
 			{ID: "C02.R3", Min: 3, Desc: "kill/poison: system flag = !Poison at every tell of OnKill / restart message", Fn: c02Poison},
